@@ -68,6 +68,9 @@ def seeded():
                 verdicts = "; ".join(one(x) for x in v["checks"]) + " @%s" % v.get("head")
         else:
             verdicts = "; ".join("%s: %s" % (x["check"], ("CAUGHT" + (" (no-failing-input-found)" if "no-failing-input-found" in x["lines"] and x["lines"].count("VIOLATION") == x["lines"].count("no-failing-input-found") else "")) if x["exit"] == 1 else "missed") for x in c["checks"])
+        nj = os.path.join(d, "NOTE.md")
+        if os.path.exists(nj):
+            verdicts += " - NOTE: " + open(nj).read().strip().replace("\n", " ").replace("|", "/")
         rows.append("| %s | %s | %s | %s | %s / %s | %s |" % (
             c["seed"], c["property"], ", ".join(files), "pass" if c["existing_tests_exit_with_change"] == 0 else "FAIL",
             "fails" if c["demo_exit_with_change"] != 0 else "passes(!)", "passes" if c["demo_exit_without_change"] == 0 else "fails(!)", verdicts))
